@@ -154,10 +154,10 @@ func VerifC10JSONSchemaDefaults() {
 	var expects []c10Expect
 	n := 1
 	if v.Tier() > 0 {
-		n = 1 + v.Choose(2)
+		n = 1 + v.Choose(3)
 	}
 	for i := 0; i < n; i++ {
-		name := []string{"alpha", "beta"}[i]
+		name := []string{"alpha", "beta", "gamma"}[i]
 		p, e := c10Property(name)
 		root.Properties[name] = p
 		expects = append(expects, e)
